@@ -159,7 +159,12 @@ def check_case(case, seed_key, res, tier):
                     v2, det2 = tolerance.VIOLATION, f'second run raised {type(e).__name__}'
                 if v2 != tolerance.VIOLATION:
                     res.count('nonreproducible_mismatch')
-                    res.note(f'NON-REPRODUCIBLE mismatch config {name} output {j}: {det} | case index {seed_key[-1]} | ' + evgen.skeleton(case)[:200])
+                    try:
+                        ref2, _ = evgen.shadow(case, av)
+                        shadow_stable = all(numpy.array_equal(a, b, equal_nan=True) if a.dtype.kind in 'fc' else numpy.array_equal(a, b) for a, b in zip(ref, ref2))
+                    except Exception:
+                        shadow_stable = None
+                    res.note(f'NON-REPRODUCIBLE mismatch config {name} output {j}: {det} | shadow recomputation equal: {shadow_stable} | case index {seed_key[-1]} | ' + evgen.skeleton(case)[:200])
                     res.sample(dict(nonreproducible=True, config=name, index=seed_key[-1], desc=evgen.describe(case), detail=det), cap=6)
                     continue
                 res.violation('compiled function returns a different value', pack(case, av, name), f'config {name}: output {j}: {det}',
